@@ -71,6 +71,11 @@ impl fmt::Display for State {
 }
 
 impl State {
+    #[cfg(feature = "verif_hooks")]
+    pub fn index(&self) -> usize {
+        self.0
+    }
+
     pub fn pascal_case(&self) -> String {
         format!("State{}", self.0)
     }
@@ -126,6 +131,8 @@ impl StateData {
     /// sort the resulting vec by state number for generated code stability
     fn set_normal_edges(&mut self, edges: HashMap<State, ByteClass>) {
         self.normal = edges.into_iter().map(|(s, bc)| (bc, s)).collect();
+        #[cfg(feature = "verif_hooks")]
+        crate::verif_hooks::permute("set_normal_edges", &mut self.normal);
         self.normal.sort_unstable_by_key(|(_bc, s)| *s);
     }
 
@@ -493,6 +500,8 @@ impl Graph {
 
         // Sort for generated code stability (by leaf id)
         // as the vec in the DisambiguationError is sorted by leaf id already
+        #[cfg(feature = "verif_hooks")]
+        crate::verif_hooks::permute("graph_errors", &mut graph.errors);
         graph.errors.sort_unstable();
 
         // Find early accept states
@@ -510,6 +519,10 @@ impl Graph {
                     .collect::<HashSet<_>>();
 
                 let child_state_types_vec = child_state_types.into_iter().collect::<Vec<_>>();
+                #[cfg(feature = "verif_hooks")]
+                let mut child_state_types_vec = child_state_types_vec;
+                #[cfg(feature = "verif_hooks")]
+                crate::verif_hooks::permute("early_children", &mut child_state_types_vec);
 
                 // If all children match the same leaf, this state is an early accepted state
                 if let &[Some(leaf_id)] = &*child_state_types_vec {
